@@ -565,6 +565,13 @@ func (s *c02Store) apply(c *rig.Ctx, u rig.Update, variant int) (rig.Update, str
 			return u2, string(cl) + " answered with an error result: " + rig.JS(res.All), nil
 		}
 		c.Count("datagrams:"+string(cl), 1)
+		if fp, fd, _ := li.Filters(u2); fp != nil && fd != nil {
+			if u2.PartialFirst {
+				c.Count("datagrams-with-two-filters:partial-filter-first", 1)
+			} else {
+				c.Count("datagrams-with-two-filters:delete-filter-first", 1)
+			}
+		}
 		return u2, "", nil
 	}
 }
